@@ -118,3 +118,8 @@ Proof. reflexivity. Qed.
 Lemma h1_conn_close_cond_go_as_modelled :
   src_h1_conn_close_cond = bs "pc.t.DisableKeepAlives && !reqWantsClose(req.Request) && !isProtocolSwitchHeader(req.Header)".
 Proof. reflexivity. Qed.
+
+(* round 8 *)
+(* Transport.Clone gives the clone a deep copy of the common headers (hfam_step HClone: private value slices) *)
+Lemma clone_headers_go_as_modelled : src_clone_headers = bs "t.Headers.Clone()".
+Proof. reflexivity. Qed.
